@@ -31,38 +31,47 @@ type tracked struct {
 
 func NewTracker(w *World) *Tracker {
 	t := &Tracker{W: w, items: map[types.TransactionID]*tracked{}, touched: map[types.Hash256]bool{}}
+	// the property's reasons: an input is SPENT by an applied block, or its creation is REVERTED (the
+	// block that created it is reverted), even transiently.  That an applied block CREATES an input
+	// (the pooled parent got confirmed) or a reverted block un-spends one is no reason to lose the
+	// transaction.
 	w.OnPath = func(rev, app []int) {
-		for _, ids := range [][]int{rev, app} {
-			for _, b := range ids {
-				bi := w.ensureInfo(b)
-				for _, txn := range bi.V1 {
-					for _, in := range txn.SiacoinInputs {
-						t.touched[types.Hash256(in.ParentID)] = true
-					}
-					for _, in := range txn.SiafundInputs {
-						t.touched[types.Hash256(in.ParentID)] = true
-					}
-					for i := range txn.SiacoinOutputs {
-						t.touched[types.Hash256(txn.SiacoinOutputID(i))] = true
-					}
-					for i := range txn.SiafundOutputs {
-						t.touched[types.Hash256(txn.SiafundOutputID(i))] = true
-					}
+		for _, b := range app {
+			bi := w.ensureInfo(b)
+			for _, txn := range bi.V1 {
+				for _, in := range txn.SiacoinInputs {
+					t.touched[types.Hash256(in.ParentID)] = true
 				}
-				for _, txn := range bi.V2 {
-					id := txn.ID()
-					for _, in := range txn.SiacoinInputs {
-						t.touched[types.Hash256(in.Parent.ID)] = true
-					}
-					for _, in := range txn.SiafundInputs {
-						t.touched[types.Hash256(in.Parent.ID)] = true
-					}
-					for i := range txn.SiacoinOutputs {
-						t.touched[types.Hash256(txn.SiacoinOutputID(id, i))] = true
-					}
-					for i := range txn.SiafundOutputs {
-						t.touched[types.Hash256(txn.SiafundOutputID(id, i))] = true
-					}
+				for _, in := range txn.SiafundInputs {
+					t.touched[types.Hash256(in.ParentID)] = true
+				}
+			}
+			for _, txn := range bi.V2 {
+				for _, in := range txn.SiacoinInputs {
+					t.touched[types.Hash256(in.Parent.ID)] = true
+				}
+				for _, in := range txn.SiafundInputs {
+					t.touched[types.Hash256(in.Parent.ID)] = true
+				}
+			}
+		}
+		for _, b := range rev {
+			bi := w.ensureInfo(b)
+			for _, txn := range bi.V1 {
+				for i := range txn.SiacoinOutputs {
+					t.touched[types.Hash256(txn.SiacoinOutputID(i))] = true
+				}
+				for i := range txn.SiafundOutputs {
+					t.touched[types.Hash256(txn.SiafundOutputID(i))] = true
+				}
+			}
+			for _, txn := range bi.V2 {
+				id := txn.ID()
+				for i := range txn.SiacoinOutputs {
+					t.touched[types.Hash256(txn.SiacoinOutputID(id, i))] = true
+				}
+				for i := range txn.SiafundOutputs {
+					t.touched[types.Hash256(txn.SiafundOutputID(id, i))] = true
 				}
 			}
 		}
